@@ -74,7 +74,7 @@ def run_case(tape, tier):
                     s["pm"].serviceAllTx()
                 except Exception as ex:
                     noz = sum(memoing.Memoer.Sizes[memoing.Memoer.Pairs[s["code"]]])
-                    if s["curt"] and s["size"] - noz < 1 and type(ex).__name__ == "MemoerError":
+                    if s["curt"] and s["size"] - noz < 1 and type(ex).__name__ in ("MemoerError", "ZeroDivisionError"):
                         res.finding("F34", "binary headers, gram size %d (legal minimum + %d): %s" % (s["size"], cfg[si]["min_extra"], str(ex)[:80]))
                     else:
                         res.violate("tx-raised", "sending a %d character memo with code %s, %s headers and gram size %d (legal minimum + %d) raised %s: %s" % (
